@@ -21,7 +21,7 @@ func TestEngine(t *testing.T) {
 	_ = start
 	InitPorts(run_.Shard)
 	hub.VerifSetDialBackoff([][2]int{{0, 1}, {1, 2}, {2, 3}})
-	if run_.Prop == "C10" {
+	if run_.Prop == "C10" || run_.Prop == "C01" {
 		// every delayed dial waits at least one second: distinguishes a dial that was in flight when
 		// unregister/shutdown returned (milliseconds) from a delayed dial that ignored it (DESIGN.md C10)
 		hub.VerifSetDialBackoff([][2]int{{1, 2}, {2, 3}, {3, 4}})
@@ -70,7 +70,7 @@ func TestEngine(t *testing.T) {
 			})
 		}
 	}
-	if run_.Prop == "C10" {
+	if run_.Prop == "C10" || run_.Prop == "C01" {
 		n := run_.N(40, 1200)
 		for i := 0; i < n; i++ {
 			if !run_.Mine(i) {
